@@ -106,6 +106,7 @@ def generate(qualname: str, registry: dict, specfuns: dict, engine_cls=None, mut
         return res, jobs
     res.paths = eng.paths
     res.covered = sorted(eng.covered_sites)
+    res.assumption_log = sorted(eng.assumption_log)
     for oid, insts in eng.obligations.items():
         meta = eng.ob_meta[oid]
         ob = Obligation(oid=oid, kind=meta["kind"], func=meta["func"], site=meta["site"], smt2="", line=meta["line"], info=meta["info"], props=eng.props)
